@@ -1,12 +1,14 @@
 import QuiverModel.Core.Packaging.Codec
 import QuiverModel.Lemmas.Packaging.Canon
 import QuiverModel.Core.Packaging.TreeShake
+import QuiverModel.Core.Packaging.Merge
 /-
 qm_c10 — driver for the renaming validator (M-Packaging). Requests:
   (prog A …) / (prog B …)       store a program in slot A / B          → ok <sizes> | bad-prog <why>
   (check-renaming eA eB)         `checkRenamingExplain A B eA eB`        → ok consts=… fns=… tuples=… types=… builtins=… resources=…
                                                                           | reject <where> <why>
   (check-identity e)             `checkRenamingExplain A A e e`          → same (sanity: every program renames to itself)
+  (prog C …) + (merge e)         `mergeBytecode C A e` vs slot B = the environment's program after merge_bytecode(A) → equal entry=… validate=… | differs <table> | none
   (shake e)                      `treeShake A e` vs slot B = real tree_shake(A, e)  → equal entry=… validate=… | differs <table> | none
   (inject f V…)                  `injectCaptures A f caps`               → ok g=… fns=… instrs=(…) consts=(…) | none
   (v2i V)                        `v2iA A v`                              → ok instrs=(…) consts=(…) | none
@@ -18,6 +20,8 @@ open QM QM.Packaging QM.Packaging.Codec
 structure C10State where
   a : Option Prog := none
   b : Option Prog := none
+  /-- slot C: the environment's program BEFORE a merge -/
+  c : Option Prog := none
   /-- `canonComputedB` is quadratic in the number of tuples: only programs up to this size are checked
       (`(canon-limit n)`; the harness raises it in the thorough tier) -/
   canonLimit : Nat := 120
@@ -39,6 +43,7 @@ def c10Step (st : C10State) (req : List Sx) : C10State × String :=
     | .ok P =>
       if slot == "A" then ({ st with a := some P }, s!"ok {sizes st.canonLimit P}")
       else if slot == "B" then ({ st with b := some P }, s!"ok {sizes st.canonLimit P}")
+      else if slot == "C" then ({ st with c := some P }, s!"ok {sizes 0 P}")
       else (st, "bad-request")
   | [.list [.atom "canon-limit", n]] =>
     match n.asNat with
@@ -52,6 +57,20 @@ def c10Step (st : C10State) (req : List Sx) : C10State × String :=
     match st.a, ea.asNat with
     | some P, some e => (st, answer P P e e)
     | _, _ => (st, "bad-request")
+  | [.list [.atom "merge", ea]] =>
+    -- `mergeBytecode C A e` compared with slot B (the environment's real program after merging A into C)
+    match st.a, st.b, st.c, ea.asNat with
+    | some P, some R, some E, some e =>
+      match mergeBytecode E P e with
+      | none => (st, "none")
+      | some out =>
+        match bytecodeDiff out.prog R with
+        | some field => (st, s!"differs {field} entry={out.entry}")
+        | none =>
+          let v := validateB { out.ren with resource := resourceMap P R } P R e out.entry
+          let why := if v then "" else s!" failing={(firstFailing (checks { out.ren with resource := resourceMap P R } P R e out.entry)).getD "?"}"
+          (st, s!"equal entry={out.entry} validate={v}{why}")
+    | _, _, _, _ => (st, "bad-request")
   | [.list [.atom "shake", ea]] =>
     -- `treeShake A e` compared with slot B (the real `tree_shake(A, e)`), field by field, and the
     -- model's OWN remap tables validated against B's run-time tables
